@@ -281,6 +281,14 @@ def renderUnary : WebCaller.Unary → List String
   | .missing => ["err", "13", hex WebCaller.missingMessage, "x", "0"]
   | .panic => ["panic"]
 
+
+/-- a rendered metadata map equals `expected`, leaving the `content-type` entry aside (the layer
+may rewrite the response's content type; the property does not say) -/
+def sameButContentType (toks : List String) (expected : HMap) : Bool :=
+  match HMap.parseRendered toks with
+  | some (m, []) => HMap.render (HMap.remove (str "content-type") m) == HMap.render (HMap.remove (str "content-type") expected)
+  | _ => false
+
 /-- clauses for "the caller was given status tokens `toks` where the server's trailers were `t`
 and said a failing status" (as C04's reading verdict, against `Spec.Status.read`) -/
 def statusClauses (t : HMap) (r : Spec.Status.Reading) (toks : List String) (hdrs : HMap := []) : List (String × Bool) :=
@@ -296,7 +304,7 @@ def statusClauses (t : HMap) (r : Spec.Status.Reading) (toks : List String) (hdr
             let own := HMap.removeAll [Spec.Status.statusName, Spec.Status.messageName,
                                        Spec.Status.detailsName] t
             -- (a unary call may add the response headers to the status it hands out)
-            md == HMap.render own || (!hdrs.isEmpty && md == HMap.render (HMap.extend own hdrs)))]
+            md == HMap.render own || (!hdrs.isEmpty && sameButContentType md (HMap.extend own hdrs)))]
       | _, _ => [("undecodable-field-gives-error-status", c != Spec.Status.OK)]
     | _, _, _ => [("observed-parses", false)]
   | _ => [("observed-parses", false)]
@@ -366,7 +374,11 @@ def callerVerdict (unary : Bool) (evs : List BodyEv) (obs : List String) (hdrs :
                     verdict [msgClause, ("ok-status-is-success", !isErr),
                              ("trailers-are-the-servers",
                                 -- unary: the response's metadata = its headers, then the trailers
-                                fin.drop 1 == HMap.render (if unary then HMap.extend hdrs t else t))]
+                                if unary && !hdrs.isEmpty then
+                                  -- (a content-type among the TRAILERS replaces the header's)
+                                  if HMap.hasKey (str "content-type") t then fin.drop 1 == HMap.render (HMap.extend hdrs t)
+                                  else sameButContentType (fin.drop 1) (HMap.extend hdrs t)
+                                else fin.drop 1 == HMap.render t)]
                 else
                   verdict ([msgClause, ("failing-status-reaches-the-caller", isErr)] ++
                            statusClauses t r (fin.drop 1) (if unary then hdrs else []))
